@@ -146,7 +146,11 @@ class Pair(object):
         return '%s<-%s' % (self.tgt, self.src)
 
 
-def discover(m, F):
+ODD = [0]       # converters found by the last discover() but left out because of their signature (they count as anchors that exist)
+ODD_M = [0]
+
+
+def discover(m, F, run=None, rule=None):
     conv, meas = {}, {}
     for name in F.lib:
         f = m.func(name)
@@ -157,9 +161,25 @@ def discover(m, F):
         if mt:
             meas[(mt.group(1), mt.group(2))] = f
     pairs = []
+    ODD[0] = 0
+    ODD_M[0] = 0
     for key, C in sorted(conv.items()):
+        # the scenes drive a converter as (unit* dest, const unit* src, size_t size, ...): any other signature (a cursor handed over
+        # by reference, an extra leading parameter) is not interpreted with arguments it was not written for
+        tys = [p['ty'] for p in C.params]
+        if len(tys) < 3 or tys[0] not in ('i8*', 'i16*', 'i32*') or tys[1] not in ('i8*', 'i16*', 'i32*') or tys[2] != 'i64':
+            if run is not None:
+                run.ob(rule or 'scene', short_dem(C.dem), None, 'converter signature (%s) is not (dest*, src*, size, ...): not analysed' % ', '.join(tys),
+                       disc='signature', loc='%s:%d' % (C.file, C.line))
+            ODD[0] += 1
+            ODD_M[0] += 1 if meas.get(key) is not None else 0
+            continue
         pairs.append(Pair(key[0], key[1], C, meas.get(key)))
     return pairs
+
+
+def short_dem(d, n=110):
+    return d if len(d) <= n else d[:n - 3] + '...'
 
 
 def elt_bytes(ty):
